@@ -156,10 +156,18 @@ def mistake_cases(draw, tier):
     cfg["OM"] = {"class": "OrderMistakeShock", "target": draw(st.sampled_from(names)), "triggerTime": draw(st.integers(0, lens[shs])),
                  "priceChangeRate": draw(st.sampled_from([-0.05, 0.05, -0.2, 0.1, 0.0])), "orderVolume": draw(st.integers(1, 500)),
                  "orderTimeLength": draw(st.integers(1, 10)), "enabled": draw(st.sampled_from([True, True, True, False]))}
+    second = draw(st.integers(0, 2)) == 0
+    if second:
+        # a second shock on ANOTHER market, in two cases of three at the very same step
+        cfg["OM2"] = {"class": "OrderMistakeShock", "target": draw(st.sampled_from([n for n in names if n != cfg["OM"]["target"]])),
+                      "triggerTime": cfg["OM"]["triggerTime"] if draw(st.integers(0, 2)) else draw(st.integers(0, lens[shs])),
+                      "priceChangeRate": draw(st.sampled_from([-0.1, 0.05, 0.2])), "orderVolume": draw(st.integers(1, 500)),
+                      "orderTimeLength": draw(st.integers(1, 10))}
     for s in range(ns):
         cfg["simulation"]["sessions"].append({"sessionName": s, "iterationSteps": lens[s], "withOrderPlacement": True,
                                               "withOrderExecution": draw(st.booleans()), "withPrint": False, "maxNormalOrders": draw(st.integers(1, 5)),
-                                              "maxHighFrequencyOrders": 1, "events": (["P"] if s == 0 else []) + (["OM"] if s == shs else [])})
+                                              "maxHighFrequencyOrders": 1,
+                                              "events": (["P"] if s == 0 else []) + (["OM"] if s == shs else []) + (["OM2"] if second and s == shs else [])})
     return {"config": cfg, "seed": draw(st.integers(0, 2**31 - 1))}
 
 
@@ -167,23 +175,29 @@ def mistake_check(case):
     res = run_case(case, OPTS)
     A = Analysis(case, res)
     sim, cfg = A.sim, case["config"]
-    om = cfg["OM"]
+    om_main = cfg["OM"]
     shs = [i for i, s in enumerate(A.sess_cfg) if "OM" in s.get("events", [])][0]
-    trigger = sum(s["iterationSteps"] for s in A.sess_cfg[:shs]) + om["triggerTime"]
-    target = sim.name2market[om["target"]]
     probe = {}
     for k, kw in A.items:
         if k == "hook" and kw["what"] == "order_before":
             probe[id(kw["order"])] = kw
     logs = {(l.market_id, l.order_id): l for _, l in A.order_logs}
-    # the first order accepted on the target market at the trigger time
-    first = None
-    for i, l in A.order_logs:
-        if l.time == trigger and l.market_id == target.market_id:
-            first = (l.market_id, l.order_id)
-            break
-    if not om["enabled"]:
-        first = None
+    # per shock: the first order accepted on its target market at its trigger time
+    firsts = {}
+    n_expected = 0
+    for name in ("OM", "OM2"):
+        if name not in cfg or not cfg[name].get("enabled", True):
+            continue
+        trig = sum(s["iterationSteps"] for s in A.sess_cfg[:shs]) + cfg[name]["triggerTime"]
+        tgt = sim.name2market[cfg[name]["target"]]
+        for i, l in A.order_logs:
+            if l.time == trig and l.market_id == tgt.market_id:
+                firsts[(l.market_id, l.order_id)] = cfg[name]
+                n_expected += 1
+                break
+    trigger = sum(s["iterationSteps"] for s in A.sess_cfg[:shs]) + om_main["triggerTime"]
+    target = sim.name2market[om_main["target"]]
+    om = om_main
     replaced = 0
     markets_at_trigger = set()
     for o, snap, _ in A.returned_orders:
@@ -193,7 +207,8 @@ def mistake_check(case):
         m = sim.id2market[o.market_id]
         if l.time == trigger:
             markets_at_trigger.add(l.market_id)
-        if (o.market_id, o.order_id) == first:
+        if (o.market_id, o.order_id) in firsts:
+            om = firsts[(o.market_id, o.order_id)]
             if id(o) not in probe:
                 continue  # the probe's before-order hook did not fire for this order (event dispatch is broken: C13's subject)
             mp = probe[id(o)]["mp"]
@@ -219,10 +234,12 @@ def mistake_check(case):
             raise Violation("C14.mistake_replaces_only_the_first_target_order",
                             f"order {o.order_id} on market {m.name} at time {l.time} was returned as {snap} but accepted as buy={l.is_buy} kind={l.kind.name} "
                             f"volume={l.volume} ttl={l.ttl} price={l.price!r} (target {om['target']}, trigger {trigger}, enabled {om['enabled']})")
-    if first is not None and replaced != 1 and all(id(o) in probe for o, _, _ in A.returned_orders):
-        raise Violation("C14.mistake_not_applied", "the first order on the target market at the trigger time was not replaced")
+    om = om_main
+    if replaced != n_expected and all(id(o) in probe for o, _, _ in A.returned_orders):
+        raise Violation("C14.mistake_not_applied", f"{n_expected} shock(s) met a first order on their target market at their trigger time, {replaced} order(s) were replaced")
     nt = len(markets_at_trigger) >= 2
-    classes = (["replaced"] if replaced else []) + (["multi_market_trigger"] if nt else []) + ([] if om["enabled"] else ["disabled"])
+    classes = (["replaced"] if replaced else []) + (["multi_market_trigger"] if nt else []) + ([] if om["enabled"] else ["disabled"]) + (["two_shocks"] if "OM2" in cfg else []) + \
+              (["two_replaced"] if replaced >= 2 else [])
     first_at_trigger = next((l.market_id for i, l in A.order_logs if l.time == trigger), None)
     if first_at_trigger is not None and first_at_trigger != target.market_id and om["enabled"]:
         classes.append("first_order_elsewhere")
